@@ -155,6 +155,42 @@ def body(ctx, case):
             p32in = float(np.sum(np.abs(u.astype(np.complex128)) ** 2)) * c32["d1"] ** 2
             p32 = float(np.sum(np.abs(np.asarray(o32)) ** 2)) * dd ** 2
             ctx.close(p32, p32in, TOL, "%s power conservation with %s given as a numpy.float32 scalar" % (case["prop"], which), scale=max(p32in, 1e-300), name=case["prop"] + " float32 scalar argument")
+    # a scalar parameter taken as a one-element slice of a table (wavelengths[k:k+1], spacings[:1]) is that number
+    if not case["np_scalars"] and not isinstance(case["z"], int) and u.dtype == np.complex128 and case.get("coin") is None and (u.shape[0] + int(abs(case["a"].real) * 8)) % 3 == 0:
+        o = op()
+        d2v = case["d1"] if case["m"] == 1.0 else case["m"] * case["d1"]
+        for which in ("wvl", "d1", "d2", "z"):
+            vals = {"wvl": case["wvl"], "d1": case["d1"], "d2": d2v, "z": case["z"]}
+            if which == "d2" and case["prop"] in ("one", "lens"):
+                continue
+            vals[which] = np.array([vals[which]], dtype=np.float64)
+            with np.errstate(all="ignore"):
+                if case["prop"] == "angular":
+                    r1 = o.angularSpectrum(u, vals["wvl"], vals["d1"], vals["d2"], vals["z"])
+                elif case["prop"] == "two":
+                    r1 = o.twoStepFresnel(u, vals["wvl"], vals["d1"], vals["d2"], vals["z"])
+                elif case["prop"] == "one":
+                    r1 = o.oneStepFresnel(u, vals["wvl"], vals["d1"], vals["z"])
+                else:
+                    r1 = o.lensAgainst(u, vals["wvl"], vals["d1"], vals["z"])
+            r1 = np.asarray(r1)
+            ctx.require(r1.size == out.size, "%s with %s given as a one-element array returns shape %s" % (case["prop"], which, r1.shape))
+            # NumPy rounds scalar and array arithmetic differently in the last bit, and the kernels hold phases of up to
+            # phimax radians: the two calls agree to eps * phimax (not judged where that leaves nothing to compare)
+            N_ = u.shape[0]
+            lz = float(case["wvl"]) * abs(float(case["z"]))
+            dout_ = d2v if case["prop"] in ("angular", "two") else lz / (N_ * case["d1"])
+            mm = dout_ / case["d1"]
+            phimax = math.pi / lz * (N_ * N_ / 2.0) * (case["d1"] ** 2 * (1 + abs(1 - mm)) + dout_ ** 2 * (1 + abs(mm - 1) / mm)) + math.pi * lz / max(mm, 1e-300) / (2 * case["d1"] ** 2)
+            tol1 = 1e-12 + 256 * 2.3e-16 * phimax
+            if tol1 > 1e-6:
+                ctx.classes["one_element_array_not_compared_phases_too_large"] += 1
+                continue
+            nrm_ = float(np.sqrt(np.sum(np.abs(out) ** 2))) or 1.0
+            dif_ = float(np.sqrt(np.sum(np.abs(r1.reshape(out.shape) - out) ** 2))) / nrm_
+            ctx.residual("one-element array argument vs number / tol", dif_ / tol1, 1.0)
+            ctx.require(dif_ <= tol1, "%s with %s given as a one-element array differs from the call with the number (relative L2 %.3g, tolerance %.3g)" % (case["prop"], which, dif_, tol1))
+        ctx.classes["one_element_array_arguments"] += 1
     a, b = case["a"], case["b"]
     with np.errstate(all="ignore"):
         ov, _ = run_prop(case, v)
